@@ -9,8 +9,10 @@ import (
 	"fmt"
 	"math"
 	"os"
+	"runtime"
 	"strconv"
 	"sync"
+	"time"
 )
 
 type replayFile struct {
@@ -340,3 +342,9 @@ func RunReplay(harnesses map[string]func()) (failed []string, err error) {
 // Itoa is the decimal text of x. Under the engine the text of a symbolic x is
 // opaque: only strconv.ParseInt / Atoi can read it back (as x).
 func Itoa(x int64) string { return strconv.FormatInt(x, 10) }
+
+// Advance lets d of (virtual) time pass, like time.Sleep.
+func Advance(d time.Duration) { time.Sleep(d) }
+
+// Yield marks a scheduling point (used by harness doubles in schedule exploration).
+func Yield(what string) { runtime.Gosched() }
